@@ -544,6 +544,71 @@ fn run_trees(sh: &Shared, k: u16) {
     sh.acc.edges(e);
 }
 
+/// Merges between digests of DIFFERENT k: every receiver preparation x donor k x donor data x
+/// donor preparation, observed right after the merge (before any flush of the receiver) and
+/// again after a few more updates.
+fn run_mixed_k(sh: &Shared, k: u16) {
+    let ctx = sh.ctx;
+    let cap4 = 4 * tdm::derived_capacity(k);
+    let recv_preps: Vec<Vec<Op>> = vec![
+        vec![],
+        vec![Op::Value(3.0)],
+        vec![Op::Stream { shape: 0, from: 0, to: 50 }],
+        vec![Op::Stream { shape: 1, from: 0, to: cap4 + 1 }],
+        vec![Op::Stream { shape: 2, from: 0, to: 300 }, Op::Query],
+        vec![Op::Stream { shape: 0, from: 0, to: 40 }, Op::Serde],
+    ];
+    let donor_data: [(u8, usize); 4] = [(0, 1), (0, 50), (5, 3000), (2, 20000)];
+    let donor_preps: [Vec<Op>; 3] = [vec![], vec![Op::Query], vec![Op::Serde]];
+    let mut jobs: Vec<Vec<Op>> = vec![];
+    for kd in KS.iter().copied().chain([1000u16, 5000]) {
+        if kd == k {
+            continue;
+        }
+        for rp in &recv_preps {
+            for &(shape, len) in &donor_data {
+                for dp in &donor_preps {
+                    let mut dops = vec![Op::Stream { shape, from: 0, to: len }];
+                    dops.extend(dp.iter().cloned());
+                    let mut ops = rp.clone();
+                    ops.push(Op::MergeOps { k: kd, ops: dops });
+                    jobs.push(ops);
+                }
+            }
+        }
+    }
+    let n: u64 = jobs
+        .par_iter()
+        .map(|ops| {
+            let mut e = Edges::new();
+            let mut p = Pair::new(k);
+            let mut ok = true;
+            for o in ops {
+                if let Err((key, w)) = p.apply(o, &mut e) {
+                    let case = tdm::ops_json(k, ops, "C15");
+                    sh.acc.vio(&key, crate::c10::case_size(&case), &|| format!("k={k}: {w}"), &|| case.clone());
+                    ok = false;
+                    break;
+                }
+            }
+            if ok {
+                sh.look_f(&mut p, &|| tdm::ops_json(k, ops, "C15"), &|| format!("mixed-k merge: {}", ops.last().unwrap().describe()), "mixed-k merge");
+                let mut more = ops.clone();
+                more.push(Op::Stream { shape: 3, from: 0, to: 10 });
+                if p.apply(more.last().unwrap(), &mut e).is_ok() {
+                    sh.look_f(&mut p, &|| tdm::ops_json(k, &more, "C15"), &|| "mixed-k merge, then 10 updates".to_string(), "mixed-k merge");
+                }
+            }
+            *e.entry("mixed-k merge family".into()).or_insert(0) += 1;
+            sh.acc.edges(e);
+            2
+        })
+        .sum();
+    ctx.add_states(n);
+    ctx.add_transitions(n);
+    sh.acc.count("mixed-k merges observed (after the merge and after 10 more updates)", n);
+}
+
 pub fn explore(ctx: &Ctx, obs: &Observer) {
     let sh = Shared { ctx, acc: Acc::default(), per_k: Mutex::new(BTreeMap::new()), per_family: Mutex::new(BTreeMap::new()), consts: Consts::default(), obs };
     let lmax = ctx.tier.pick(1usize << 16, 1usize << 20);
@@ -563,7 +628,10 @@ pub fn explore(ctx: &Ctx, obs: &Observer) {
         let t0 = std::time::Instant::now();
         match s {
             Some(s) => run_stream(&sh, *k, *s, lmax),
-            None => run_trees(&sh, *k),
+            None => {
+                run_trees(&sh, *k);
+                run_mixed_k(&sh, *k);
+            }
         }
         if std::env::var("VERIF_DEBUG").is_ok() {
             eprintln!("k={k} {:?}: {:.1}s", s.map(|s| tdm::STREAM_SHAPES[s as usize]).unwrap_or("merge trees"), t0.elapsed().as_secs_f64());
@@ -611,6 +679,9 @@ pub fn run(ctx: &Ctx) -> i32 {
             "update: duplicate of the current min",
             "update: duplicate of the current max",
             "merge tree: left-deep, 16 leaves",
+            "mixed-k merge family",
+            "merge: other has a different k",
+            "merge: into an empty digest",
         ];
         let missing: Vec<&str> = need.iter().copied().filter(|n| !e.contains_key(*n)).collect();
         if !missing.is_empty() {
@@ -628,6 +699,7 @@ pub fn run(ctx: &Ctx) -> i32 {
             "default_runs": format!("8 stream shapes (sorted, reversed, sawtooth, constant, heavy duplicates, two far clusters, geometric magnitudes 1e-300..1e300, alternating extremes), one run of 2^{lmax} values each; since stream(L) is a prefix of stream(L+1) the run visits EVERY length: observed (on a clone, which forces the compress) at every length 1..=4cap+2, at every length = -1,0,+1 mod 4cap (every buffer boundary; the observation at m*4cap is exactly the state the next update's compress produces), at every power of two and at the end"),
             "deviations": "bound 1; D = {merge(pool[0..4]), freeze->unfreeze, serialize->deserialize, duplicate of min, duplicate of max}; positions: 0,1,2, m*4cap+{-1,0,1,2} for m<=3 (quick)/6 (thorough), powers of two <= 2^14 (2^18), plus 63 evenly spaced in the first buffer (quick) / every position <= 4cap+2 for k<=100 and 255 evenly spaced otherwise (thorough); after the deviation the run continues for 2*4cap+2 values with an observation right after the deviation, at every buffer boundary and at the end",
             "merge_trees": "16 leaves (shape i%8, lengths 1,2,5,50,4cap-1,4cap,4cap+1,1000,3000,10000,7,4cap+2,20000,333,2*4cap+1,30000): left-deep over the fixed order and its reverse observed after every merge; balanced trees over the first n leaves, n=2..=16, both orders, observed at every internal node; all 6954 binary trees with <= 4 leaves over a pool of 6 observed at the root",
+            "mixed_k": "per receiver k: 6 receiver preparations (empty, 1 value, 50 buffered, one flush, queried, round-tripped) x 9 donor k (the other members of the k list, 1000, 5000) x 4 donor streams (1, 50, 3000, 20000 values) x 3 donor preparations (buffered, queried = empty buffer, round-tripped); observed right after the merge and after 10 more updates",
         },
     });
     ctx.finish(
